@@ -68,6 +68,59 @@ def regoff(ctx: Ctx, rep: Report) -> None:
                 for t, x in zip(tg.elts, v.elts):
                     if isinstance(t, ast.Name) and _is_local_src(x):
                         local.add(t.id)
+        # ---- which parse-tree node a name / index was read from -------------
+        node_of: dict[str, str] = {}
+
+        def base_of(e: ast.AST) -> str | None:
+            if isinstance(e, ast.Name):
+                return node_of.get(e.id)
+            if isinstance(e, ast.Call) and norm(e.func) in ('int', 'str') \
+                    and len(e.args) == 1:
+                return base_of(e.args[0])
+            if isinstance(e, ast.Subscript):
+                return norm(e.value)
+            return None
+        for s in ast.walk(fn):
+            if not isinstance(s, ast.Assign):
+                continue
+            tg, v = s.targets[0], s.value
+            pairs = []
+            if isinstance(tg, ast.Name):
+                pairs = [(tg, v)]
+            elif isinstance(tg, ast.Tuple) and isinstance(v, ast.Tuple) and (
+                    len(tg.elts) == len(v.elts)):
+                pairs = list(zip(tg.elts, v.elts))
+            for t, x in pairs:
+                if isinstance(t, ast.Name) and not isinstance(x, ast.Name):
+                    b = base_of(x)
+                    if b:
+                        node_of[t.id] = b
+        # offset and index must come from the same qubit reference
+        for s in ast.walk(fn):
+            if not (isinstance(s, ast.BinOp) and isinstance(s.op, ast.Add)):
+                continue
+            for a, o in ((s.left, s.right), (s.right, s.left)):
+                if not (isinstance(o, ast.Call) and norm(o.func) == (
+                        FIRST_INDEX) and o.args):
+                    continue
+                if not (_is_local_src(a) or (
+                        isinstance(a, ast.Name) and a.id in local)):
+                    continue
+                n_sink += 1
+                rep.count()
+                bi, bn = base_of(a), base_of(o.args[0])
+                rep.check(
+                    bi is None or bn is None or bi == bn, R,
+                    f'OPENQASMVisitor.{name}:pair:{norm(a)}', f.path,
+                    s.lineno,
+                    f'index `{norm(a)}` is shifted by the offset of its own '
+                    'register',
+                    f'`{norm(s)}` adds the index `{norm(a)}` (read from '
+                    f'`{bi}`) to the offset of the register named by '
+                    f'`{norm(o.args[0])}` (read from `{bn}`): the index of '
+                    'one qubit reference is shifted by the register of '
+                    'another', key=f'pair:{norm(a)}',
+                )
         # ---- cursors -------------------------------------------------------
         loops = [n for n in g.nodes if n.kind == 'for' and norm(
             n.stmt.iter) == 'self.qubit_regs']
@@ -134,6 +187,53 @@ def regoff(ctx: Ctx, rep: Report) -> None:
                 'every register but the first get the wrong circuit index',
                 key='cursor',
             )
+            # inside the walk: `cursor + index` happens under the match test
+            # of the register that the index belongs to
+            for m in g.nodes:
+                if m.id not in body or m.stmt is None:
+                    continue
+                for s in m.walk():
+                    if not (isinstance(s, ast.BinOp) and isinstance(
+                            s.op, ast.Add)):
+                        continue
+                    for a, o in ((s.left, s.right), (s.right, s.left)):
+                        if not (isinstance(o, ast.Name) and o.id == cur
+                                and isinstance(a, ast.Name)
+                                and a.id in local):
+                            continue
+                        names = []
+                        for t, lab in g.guards_of(m.id):
+                            if t.kind != 'test' or not isinstance(
+                                    t.stmt.test, ast.Compare):
+                                continue
+                            c = t.stmt.test
+                            sides = [c.left, c.comparators[0]]
+                            if len(c.ops) == 1 and (
+                                (isinstance(c.ops[0], ast.Eq)
+                                 and lab == 'true')
+                                or (isinstance(c.ops[0], ast.NotEq)
+                                    and lab == 'false')):
+                                names += [x for x in sides
+                                          if base_of(x) is not None]
+                        if not names:
+                            continue
+                        n_sink += 1
+                        rep.count()
+                        bi = base_of(a)
+                        rep.check(
+                            bi is None or any(
+                                base_of(x) == bi for x in names), R,
+                            f'OPENQASMVisitor.{name}:pair:{a.id}', f.path,
+                            m.lineno,
+                            f'`{a.id}` is shifted under the match of its own '
+                            'register name',
+                            f'`{norm(s)}` shifts the index `{a.id}` (read '
+                            f'from `{bi}`) under a match of '
+                            f'`{norm(names[0])}` (read from '
+                            f'`{base_of(names[0])}`): the index of one qubit '
+                            'reference is shifted by the register of '
+                            'another', key=f'pair:{a.id}',
+                        )
         # a name assigned an expression that still carries an unshifted
         # local index is itself register-local (flow-insensitive fixpoint)
         changed = True
@@ -189,7 +289,9 @@ def regoff(ctx: Ctx, rep: Report) -> None:
                     'naming any other register is applied to the qubits of '
                     'that one', key='fixed-register',
                 )
-    rep.floor(R, n_cursor, 5, 'register cursors in OPENQASMVisitor')
+    # (the two convert_qubit_id_* helpers; the statement visitors may use
+    # their own cursor or the helpers)
+    rep.floor(R, n_cursor, 2, 'register cursors in OPENQASMVisitor')
     rep.floor(R, n_sink, 6, 'circuit-index sinks in OPENQASMVisitor')
 
 
